@@ -154,6 +154,10 @@ def apply_ref(d, op):
             d["pvals"]["pg"] = PVALS["pg"][op[2]]
         elif op[1] == "pc":
             d["pvals"]["pc_which"] = PVALS["pc"][op[2]]
+    elif k == "set_value_cat":
+        # one set_value call on vertcat(pg, <horizon parameter>)
+        d["pvals"]["pg"] = op[1]
+        d["pvals"]["TT"] = op[2]
     elif k == "set_initial":
         d["init"].append([op[1], op[2], op[3]])
     elif k in ("query", "solve", "save_load"):
@@ -196,6 +200,8 @@ def apply_real(r, d, op):
         else:
             dd = dict(d)
             st.set_value(s["pc"], np.array(pc_value(d, PVALS["pc"][op[2]])).reshape(1, -1))
+    elif k == "set_value_cat":
+        st.set_value(ca.vertcat(s["pg"], s["Tp"]), np.array([op[1], op[2]]))
     elif k == "set_initial":
         P.apply_init(st, s, d, [op[1], op[2], op[3]])
     elif k == "query":
